@@ -18,6 +18,8 @@ func TestVerifReplay(t *testing.T) {
 		"Verif_C12_TagsUTF8":         Verif_C12_TagsUTF8,
 		"Verif_C12_CommentLines":     Verif_C12_CommentLines,
 		"Verif_C14_VisitedGuard":     Verif_C14_VisitedGuard,
+		"Verif_C14_ResultsOf":        Verif_C14_ResultsOf,
+		"Verif_C14_Literals":         Verif_C14_Literals,
 		"Verif_C13_Tables":           Verif_C13_Tables,
 		"Verif_C13_Imports":          Verif_C13_Imports,
 		"Verif_C13_ImportsChain":     Verif_C13_ImportsChain,
